@@ -26,6 +26,8 @@ OkOp(o) == CASE o.op = "call" -> Real(o.n - 33)
              [] o.op = "emit" -> Real(o.n - 2)
              [] o.op = "write" -> o.k >= 8 /\ Real(o.k) /\ Real(o.n - 11)
              [] o.op = "alloc" -> Real(o.n - 8)
+             [] o.op \in {"iwrite", "swrite"} -> o.k >= 8 /\ Real(o.k) /\ Real(o.n - 3)
+             [] o.op = "fwrite" -> Real(o.n - 8)
              [] OTHER -> TRUE
 OkProg(p) == \A i \in DOMAIN p : OkOp(p[i])
 
@@ -70,6 +72,17 @@ FSizes(m) == LET e == EnvOf(m) b == Big(e) IN
        x \in {-1, 0, 1}, pre \in {<<>>, <<WriteOp(12, 40)>>}, post \in {<<>>, <<LogOp(1)>>}}
     \cup {Case(m, [b EXCEPT !.value = e.value + l], pre \o <<AllocOp(e.value + l + x)>> \o post) :
        x \in {-1, 0, 1}, pre \in {<<>>, <<AllocOp(40)>>}, post \in {<<>>, <<LogOp(1)>>}}
+    \* every other substate-write entry point: index insert, sorted-index insert (kernel_set_substate), field write
+    \cup {Case(m, [b EXCEPT !.value = e.value + l], pre \o <<IWriteOp(20, e.value + l + x)>> \o post) :
+       x \in {-1, 0, 1}, pre \in {<<>>, <<IWriteOp(12, 40)>>}, post \in {<<>>, <<LogOp(1)>>}}
+    \cup {Case(m, [b EXCEPT !.value = e.value + l], pre \o <<SWriteOp(20, e.value + l + x)>> \o post) :
+       x \in {-1, 0, 1}, pre \in {<<>>, <<SWriteOp(12, 40)>>}, post \in {<<>>, <<LogOp(1)>>}}
+    \cup {Case(m, [b EXCEPT !.value = e.value + l], pre \o <<FWriteOp(e.value + l + x)>> \o post) :
+       x \in {-1, 0, 1}, pre \in {<<>>, <<FWriteOp(40)>>}, post \in {<<>>, <<FWriteOp(30), LogOp(1)>>}}
+    \cup {Case(m, [b EXCEPT !.key = e.key + l], pre \o <<IWriteOp(e.key + l + x, 30)>> \o post) :
+       x \in {-1, 0, 1}, pre \in {<<>>, <<IWriteOp(12, 40)>>}, post \in {<<>>, <<LogOp(1)>>}}
+    \cup {Case(m, [b EXCEPT !.key = e.key + l], pre \o <<SWriteOp(e.key + l + x - 2, 30)>> \o post) :
+       x \in {-1, 0, 1}, pre \in {<<>>, <<SWriteOp(12, 40)>>}, post \in {<<>>, <<LogOp(1)>>}}
     : l \in Lims}
 
 (* ---- byte counters: the limit just below / at / just above every threshold of the program ---- *)
@@ -82,7 +95,9 @@ TrackProgs == {<<WriteOp(20, 50)>>, <<WriteOp(20, 50), WriteOp(31, 64)>>,
                <<Call(MinCall), WriteOp(20, 50), Ret, WriteOp(10, 90)>>,
                <<Call(MinCall), WriteOp(20, 50)>>, <<WriteOp(20, 50), Call(MinCall), Call(MinCall), Ret, WriteOp(10, 90)>>,
                <<EmitOp(10), WriteOp(20, 50), EmitOp(10)>>, <<WriteOp(20, 50), EmitOp(10)>>,
-               <<AllocOp(50), WriteOp(20, 50), Call(MinCall), AllocOp(30), WriteOp(20, 50)>>}
+               <<AllocOp(50), WriteOp(20, 50), Call(MinCall), AllocOp(30), WriteOp(20, 50)>>,
+               <<IWriteOp(20, 50), SWriteOp(20, 60)>>, <<FWriteOp(90), IWriteOp(30, 45), FWriteOp(40)>>,
+               <<SWriteOp(9, 16), WriteOp(20, 50), IWriteOp(20, 50)>>}
 FTrack(m) == LET e == EnvOf(m) b == Big(e) IN
   UNION {{Case(m, [b EXCEPT !.track = t + d], p) :
             d \in {-1, 0, 1},
